@@ -79,24 +79,28 @@ AllFiles == EventsTab[shape] \cup scs \cup DecoyFiles(decoy)
 IsSidecar(f) == f.ext = ".json"
 IsData(f) == f.ext = ".tsv"
 InExcluded(f) == \E i \in 1..Len(f.dir) : f.dir[i] \in Excluded
-\* the files of the group the dataset validates: right suffix, not below an excluded directory
-Group(F, sfx) == {f \in F : f.suffix = sfx /\ ~InExcluded(f)}
+\* files below an excluded directory take no part
+Present(F) == {f \in F : ~InExcluded(f)}
+\* G: the sidecars that take part (any suffix);  the group the dataset validates: suffix "events"
+Inheritable(F) == {f \in Present(F) : IsSidecar(f)}
+Targets(F) == {f \in Present(F) : f.suffix = "events" /\ IsData(f)}
+Sidecars(F) == {f \in Present(F) : f.suffix = "events" /\ IsSidecar(f)}
 
 \* sidecar s applies to file f (f: a data file, or a sidecar file when ITS inherited content is asked for)
 Applicable(s, f) == /\ s.suffix = f.suffix
                     /\ IsPrefix(s.dir, f.dir)
                     /\ \A n \in DOMAIN s.ents : n \in DOMAIN f.ents /\ f.ents[n] = s.ents[n]
 
-AtLevel(F, f, k) == {s \in Group(F, f.suffix) : IsSidecar(s) /\ s.dir = Prefix(f.dir, k) /\ Applicable(s, f)}
-AtMostOnePerDir(F) == \A f \in F : ~InExcluded(f) =>
-                          \A k \in 0..Len(f.dir) : Cardinality(AtLevel(F, f, k)) <= 1
+AtLevel(G, f, k) == {s \in G : Len(s.dir) = k /\ Applicable(s, f)}
+AtMostOnePerDir(F) == LET G == Inheritable(F) IN
+                      \A f \in Present(F) : \A k \in 0..Len(f.dir) : Cardinality(AtLevel(G, f, k)) <= 1
 
 \* root -> leaf chain of the applicable sidecars (well defined under AtMostOnePerDir)
 RECURSIVE ChainFrom(_, _, _)
-ChainFrom(F, f, k) == IF k > Len(f.dir) THEN <<>>
-                      ELSE LET L == AtLevel(F, f, k) IN
-                           (IF L = {} THEN <<>> ELSE <<CHOOSE s \in L : TRUE>>) \o ChainFrom(F, f, k + 1)
-Chain(F, f) == ChainFrom(F, f, 0)
+ChainFrom(G, f, k) == IF k > Len(f.dir) THEN <<>>
+                      ELSE LET L == AtLevel(G, f, k) IN
+                           (IF L = {} THEN <<>> ELSE <<CHOOSE s \in L : TRUE>>) \o ChainFrom(G, f, k + 1)
+Chain(G, f) == ChainFrom(G, f, 0)
 
 \* file name and path relative to the dataset root
 RECURSIVE NameFrom(_, _)
@@ -108,26 +112,23 @@ RECURSIVE DirFrom(_, _)
 DirFrom(d, i) == IF i > Len(d) THEN "" ELSE d[i] \o "/" \o DirFrom(d, i + 1)
 Path(f) == DirFrom(f.dir, 1) \o Name(f)
 
-\* merged sidecar as a map  column key -> path of the sidecar file whose entry is in force
+\* merged sidecar as a map  column key -> the sidecar file whose entry is in force
 EmptyMap == [c \in {} |-> ""]
 Override(m, s) == [c \in (DOMAIN m) \cup s.cols |->
-                     IF DEEPER_WINS THEN (IF c \in s.cols THEN Path(s) ELSE m[c])
-                     ELSE (IF c \in DOMAIN m THEN m[c] ELSE Path(s))]
+                     IF DEEPER_WINS THEN (IF c \in s.cols THEN s ELSE m[c])
+                     ELSE (IF c \in DOMAIN m THEN m[c] ELSE s)]
 RECURSIVE Fold(_)
 Fold(ch) == IF ch = <<>> THEN EmptyMap ELSE Override(Fold(Prefix(ch, Len(ch) - 1)), ch[Len(ch)])
-Merged(F, f) == Fold(Chain(F, f))
+Merged(G, f) == Fold(Chain(G, f))
 
 \* declarative reading: the entry in force for column c is that of the DEEPEST applicable sidecar defining c
-Defining(F, f, c) == {s \in Group(F, f.suffix) : IsSidecar(s) /\ Applicable(s, f) /\ c \in s.cols}
-MergedDecl(F, f) == [c \in {c \in Cols : Defining(F, f, c) # {}} |->
-                       Path(CHOOSE s \in Defining(F, f, c) : \A t \in Defining(F, f, c) : Len(t.dir) <= Len(s.dir))]
+Defining(G, f, c) == {s \in G : Applicable(s, f) /\ c \in s.cols}
+MergedDecl(G, f) == [c \in {c \in Cols : Defining(G, f, c) # {}} |->
+                       CHOOSE s \in Defining(G, f, c) : \A t \in Defining(G, f, c) : Len(t.dir) <= Len(s.dir)]
 
 \* what hed-python does on the pinned tree (kept as a named alternative, used by a sensitivity run only):
 \* the data file gets the merged content OF ITS DEEPEST SIDECAR FILE, i.e. the chain computed for that sidecar file
-MergedViaDeepest(F, f) == LET ch == Chain(F, f) IN IF ch = <<>> THEN EmptyMap ELSE Merged(F, ch[Len(ch)])
-
-Targets(F) == {f \in Group(F, "events") : IsData(f)}
-Sidecars(F) == {f \in Group(F, "events") : IsSidecar(f)}
+MergedViaDeepest(G, f) == LET ch == Chain(G, f) IN IF ch = <<>> THEN EmptyMap ELSE Merged(G, ch[Len(ch)])
 
 ----------------------------------------------------------------------------
 \* generator
@@ -162,30 +163,35 @@ Deterministic == AtMostOnePerDir(AllFiles)
 \* the generator's pairwise guard is exactly the BIDS rule (checked with ENFORCE_BIDS = FALSE as well)
 GuardExact == NoConflict(scs) <=> AtMostOnePerDir(AllFiles)
 
-\* the chain holds exactly the applicable sidecars of the group, strictly root -> leaf
-ChainExact == \A f \in Targets(AllFiles) \cup Sidecars(AllFiles) :
-                 LET ch == Chain(AllFiles, f) IN
-                 /\ {ch[i] : i \in 1..Len(ch)} = {s \in Sidecars(AllFiles) : Applicable(s, f)}
+\* the chain holds exactly the applicable sidecars that take part, strictly root -> leaf
+ChainExact == LET F == AllFiles  G == Inheritable(F) IN
+              \A f \in Targets(F) \cup Sidecars(F) :
+                 LET ch == Chain(G, f) IN
+                 /\ {ch[i] : i \in 1..Len(ch)} = {s \in Sidecars(F) : Applicable(s, f)}
                  /\ \A i \in 1..(Len(ch) - 1) : Len(ch[i].dir) < Len(ch[i + 1].dir)
 
 \* fold of per-column override == "deepest applicable sidecar defining the column"
-MergedIsTopDown == \A f \in Targets(AllFiles) \cup Sidecars(AllFiles) : Merged(AllFiles, f) = MergedDecl(AllFiles, f)
+MergedIsTopDown == LET F == AllFiles  G == Inheritable(F) IN
+                   \A f \in Targets(F) \cup Sidecars(F) : Merged(G, f) = MergedDecl(G, f)
 
 \* a sidecar file always carries its own columns in its merged content
-OwnColumns == \A s \in Sidecars(AllFiles) : \A c \in s.cols : Merged(AllFiles, s)[c] = Path(s)
+OwnColumns == LET F == AllFiles  G == Inheritable(F) IN
+              \A s \in Sidecars(F) : \A c \in s.cols : Merged(G, s)[c] = s
 
-\* decoys take no part: same targets, same sidecars, same merges with and without them
-ExcludedIgnored == LET F0 == AllFiles \ DecoyFiles(decoy) IN
-                   /\ Targets(AllFiles) = Targets(F0)
-                   /\ Sidecars(AllFiles) = Sidecars(F0)
-                   /\ \A f \in Targets(F0) \cup Sidecars(F0) : /\ Chain(AllFiles, f) = Chain(F0, f)
-                                                              /\ Merged(AllFiles, f) = Merged(F0, f)
+\* decoys take no part: same targets, same sidecars, same chains (hence merges) with and without them
+ExcludedIgnored == decoy # {} =>
+                   LET F == AllFiles  F0 == F \ DecoyFiles(decoy)  G == Inheritable(F)  G0 == Inheritable(F0) IN
+                   /\ Targets(F) = Targets(F0)
+                   /\ Sidecars(F) = Sidecars(F0)
+                   /\ \A f \in Targets(F0) \cup Sidecars(F0) : Chain(G, f) = Chain(G0, f)
 
 \* NOT an invariant (sensitivity run): taking the deepest sidecar file's own merged content is not enough
-DeepestSuffices == \A f \in Targets(AllFiles) : MergedViaDeepest(AllFiles, f) = Merged(AllFiles, f)
+DeepestSuffices == LET F == AllFiles  G == Inheritable(F) IN
+                   \A f \in Targets(F) : MergedViaDeepest(G, f) = Merged(G, f)
 
 \* vacuity guards used by sensitivity configs: something is overridden / a 3-level chain exists
-NeverOverrides == \A f \in Targets(AllFiles) : LET ch == Chain(AllFiles, f) IN
+NeverOverrides == LET F == AllFiles  G == Inheritable(F) IN
+                  \A f \in Targets(F) : LET ch == Chain(G, f) IN
                      \A i, j \in 1..Len(ch) : i < j => ch[i].cols \cap ch[j].cols = {}
-NeverThreeLevels == \A f \in Targets(AllFiles) : Len(Chain(AllFiles, f)) < 3
+NeverThreeLevels == LET F == AllFiles  G == Inheritable(F) IN \A f \in Targets(F) : Len(Chain(G, f)) < 3
 =============================================================================
